@@ -15,10 +15,16 @@
     (a fresh Context per edge, the prefix is re-played), until nothing new is
     accepted -- this reaches all 13 states by genuine prefixes and tries every
     message type in each of them, on both roles.
-(V) seeded random message sequences.
+(V) seeded random message sequences (one or two edits of a legal run).
     Every call of every run is recorded (state before, message, alert class,
     state after, update_traffic_key_cb calls) and judged by TLC with the
     operators of Tls13 (TraceTls13).
+(Q) one layer down: the flight orderings are also sent, in real QUIC packets
+    protected with the genuine keys, to a real QuicConnection client (no session
+    ticket); observed are HandshakeCompleted, the close code, the final TLS
+    state and the installed 1-RTT keys (connection.py), judged by the same
+    module.  This is also what checks the assumption of the runs above that a
+    Context is not fed any more after it raised an alert.
 
 The adversary: a genuine peer Context produces the hello (and so the key
 exchange); everything else is built here from the certificate's private key
@@ -39,17 +45,12 @@ from .. import tlc as tlcmod
 from .. import trace
 from ..overlay import MachineryError
 
-TESTS = os.path.join(os.environ.get("VERIF_REPO", "/repo"), "tests")
 # certificates are test fixtures, not code under check: always the pristine ones
 FIXTURES = "/repo/tests"
 SIG_RSA_PSS_RSAE_SHA256 = 0x0804
 SERVER_CV_CONTEXT = b"TLS 1.3, server CertificateVerify"
 CLIENT_CV_CONTEXT = b"TLS 1.3, client CertificateVerify"
 
-TYPE_BYTE = {"CLIENT_HELLO": 1, "SERVER_HELLO": 2, "NEW_SESSION_TICKET": 4, "END_OF_EARLY_DATA": 5,
-             "ENCRYPTED_EXTENSIONS": 8, "CERTIFICATE": 11, "CERTIFICATE_REQUEST": 13,
-             "CERTIFICATE_VERIFY": 15, "FINISHED": 20, "KEY_UPDATE": 24, "COMPRESSED_CERTIFICATE": 25,
-             "MESSAGE_HASH": 254, "UNKNOWN": 99}
 NAME_TYPE = {"CH": "CLIENT_HELLO", "CHpsk": "CLIENT_HELLO", "CHpskbad": "CLIENT_HELLO", "SH": "SERVER_HELLO",
              "SHpsk": "SERVER_HELLO", "NST": "NEW_SESSION_TICKET", "EOED": "END_OF_EARLY_DATA",
              "EE": "ENCRYPTED_EXTENSIONS", "CERT": "CERTIFICATE", "CERTempty": "CERTIFICATE",
@@ -247,10 +248,6 @@ def call(tls, ctx, data, bufs, keys):
     return {"pre": pre, "alert": alert, "post": ctx.state.name,
             "keys": [[d.name, e.name] for d, e in keys[k0:]],
             "resumed": bool(ctx._session_resumed)}
-
-
-class Dead(Exception):
-    pass
 
 
 def run_case(lab, cfg, names, batch_from=None, keep_going=False):
@@ -754,6 +751,8 @@ def run(check):
     for v in closures.values():
         reached |= set(v["states_reached"])
     check.cov["states_reached"] = len(reached)
+    if len(reached) < 13:               # not a verdict: on this tree some state has no genuine prefix
+        check.cov["coverage_gap"] = "states never reached: %d of 13" % len(reached)
 
     # ---- (R) the scripts TLC enumerated, message by message and batched ---------
     jobs = []
